@@ -1,3 +1,3 @@
 From Coq Require Import ExtrOcamlBasic.
-From ChibiV Require Import Common.ExtractBase C03.Defs C03.Model C05.Spec C05.Model.
-Extraction "model.ml" ext_base annotate compile_toplevel calls_of bodies_calls tail_sites ensure_stack grow_stack deep_outcome session_z.
+From ChibiV Require Import Common.ExtractBase C03.Defs C03.Model C05.Spec C05.Model C05.Depth.
+Extraction "model.ml" ext_base annotate compile_toplevel calls_of bodies_calls tail_sites ensure_stack grow_stack deep_outcome session_z body_depth bodies_depth.
